@@ -17,7 +17,7 @@
    output line: <id> <obs> ...
      s<code> | u:<uid>:<six values> | l:<uid>=<six>;... (sorted) | r | p:<uid>=<msg>;... |
      a:ok:<up>:<down> | a:<err> | n:ok | n:<err> | c:autherr:<err> | c:sesserr:<err> | c:ok:<active> | PANIC
-   argv[1] = "guard": model with the proposed F8 guard in GetUser. *)
+   argv[1] = "prefix": GetUser as it was before commit 638655d (no rate guard: finding F8). *)
 
 (* ---- Z <-> decimal ------------------------------------------------------------------ *)
 let z_of_small i = if i = 0 then Z0 else if i > 0 then Zpos (pos_of_int i) else Zneg (pos_of_int (-i))
@@ -102,7 +102,7 @@ let show_conn = function
   | CoSessErr e -> "c:sesserr:" ^ show_err e
   | CoOk a -> "c:ok:" ^ b01 a
 
-let guard = Array.length Sys.argv > 1 && Sys.argv.(1) = "guard"
+let guard = not (Array.length Sys.argv > 1 && Sys.argv.(1) = "prefix")
 
 let () = iter_lines (fun line ->
   match split_ws line with
